@@ -14,7 +14,7 @@ func init() {
 	register("C03", "other", []string{
 		"decides the structural necessary conditions (every token gets a disposition, pass-through appends happen at most once per token, verbatim, in iterator order, and survive command descent); does not decide that 'consumed' dispositions consume the right tokens (C01/C02)",
 		"sliceiterator.Iterator is only used through its methods (checked: R03.6) and go/ssa models the control flow faithfully",
-	}, rC03Writers, rC03Once, rC03Handoff, typestateRule("R03.4"), rC03ParseReturn, rC03Iterator, passThroughRule("R03.7"))
+	}, rC03Writers, rC03Once, rC03Handoff, typestateRule("R03.4"), rC03ParseReturn, rC03Iterator, passThroughRule("R03.7"), rArgsUnmodified("R03.8"))
 }
 
 // parserOrFail builds the model for parseCLIArgs and reports unresolved anchors as undecided.
